@@ -168,13 +168,20 @@ class VSeq(V):
         self.comps = comps
 
 
+CMD_UNIVERSE = [b'AUTH', b'CLSE', b'CNXN', b'OKAY', b'OPEN', b'SYNC', b'WRTE',
+                b'DATA', b'DENT', b'DONE', b'FAIL', b'LIST', b'QUIT', b'RECV', b'SEND', b'STAT']
+
+
 class VCmdSet(V):
-    """A collection used only through `x in coll` over byte-string ids (expected_cmds, expected_ids):
-    a z3 Array(Bytes -> Bool)."""
+    """A collection used only through `x in coll` over the protocol's 4-byte ids (expected_cmds, expected_ids):
+    one z3 Bool per id of the universe (ADB commands and FileSync ids); nothing else is ever a member."""
     kind = 'cmdset'
 
-    def __init__(self, arr):
-        self.arr = arr
+    def __init__(self, bits):
+        self.bits = bits            # dict bytes -> z3 Bool
+
+    def member(self, term):
+        return z3.Or(*[z3.And(term == bytes_const(c), b) for c, b in self.bits.items()])
 
 
 class VObj(V):
@@ -362,7 +369,7 @@ def merge(c, a, b):
     if isinstance(a, VTuple) and isinstance(b, VTuple) and len(a.items) == len(b.items):
         return VTuple([merge(c, x, y) for x, y in zip(a.items, b.items)])
     if isinstance(a, VCmdSet) and isinstance(b, VCmdSet):
-        return VCmdSet(z3.If(c, a.arr, b.arr))
+        return VCmdSet({k: z3.If(c, a.bits[k], b.bits[k]) for k in a.bits})
     if isinstance(a, VOpaque) and isinstance(b, VOpaque) and a.term is not None and b.term is not None:
         return VOpaque(a.tag, z3.If(c, a.term, b.term))
     raise Unsupported('cannot merge %r and %r' % (a, b))
@@ -408,7 +415,7 @@ def veq(a, b):
             return z3.And(a.length == b.length, z3.ForAll([i], z3.Implies(z3.And(i >= 0, i < a.length), body)))
         raise Unsupported('seq equality')
     if isinstance(a, VCmdSet) and isinstance(b, VCmdSet):
-        return a.arr == b.arr
+        return z3.And(*[a.bits[k] == b.bits[k] for k in a.bits])
     if isinstance(a, VObj) and isinstance(b, VObj):
         return z3.BoolVal(a is b)
     if isinstance(a, VOpaque) and isinstance(b, VOpaque):
